@@ -1073,6 +1073,22 @@ def files_c02(files: dict) -> list:
     return out
 
 
+def writes_c10(writes) -> list:
+    """two different stub texts are never written to the same path: a path opened for (over)writing twice in one run, with
+    different texts, has lost the first one"""
+    out = []
+    first: dict = {}
+    for rel, mode, text in writes or []:
+        if "w" in mode:
+            if rel in first and first[rel] != text:
+                out.append({"what": f"{rel} is written twice in one run with different texts (the first text is lost)", "decl": rel,
+                            "finding": None})
+            first[rel] = text
+        elif "a" in mode and rel in first:
+            first[rel] = first[rel] + text
+    return out
+
+
 def files_c10(files: dict, module_names=None) -> list:
     """module_names: names (and aliases) under which modules of the package may be re-exported as a whole"""
     out = []
